@@ -1,4 +1,5 @@
 import BstreamVerif.Model.Forkable
+import BstreamVerif.Spec.Consumer
 import BstreamVerif.Drv.Util
 /- Line protocol for suite `forkable`:
    case n forkable <none|ex:<id>:<num>|in:<id>:<num>> <hold> <kept> <alltrig> <filtermask> <fsb>
@@ -73,7 +74,9 @@ structure RunSt where
 def runCase (cfg : Config) (withQueries : Bool) (body : List (List String)) : List String :=
   let final := body.foldl (fun (r : RunSt) ws =>
     match parseBlkOp ws with
-    | none => r
+    | none =>
+      -- `op twin …`: C03 says the implementation's two traces are the same (kept_irrelevant / noise_irrelevant)
+      if ws.take 2 == ["op", "twin"] then { r with out := "model twin same" :: r.out } else r
     | some (b, failAt) =>
       let (s', evs, res) := processBlock cfg r.st b failAt
       let nums := insertNat b.num r.nums
@@ -83,9 +86,93 @@ def runCase (cfg : Config) (withQueries : Bool) (body : List (List String)) : Li
     ⟨init cfg, [], [], []⟩
   final.out.reverse
 
+open BstreamVerif.Consumer in
+def parseObs (ws : List String) : Option Obs :=
+  match ws with
+  | ["impl", "ev", st, i, n, h, l, j, idx, cnt] => do
+    let (ok, stName) := if st.startsWith "CURSORMISMATCH-" then (false, (st.drop 15).toString) else (true, st)
+    let step ← Step.ofName stName
+    let n ← n.toNat?
+    let h ← parseRefTok h
+    let l ← parseRefTok l
+    let j ← if j == "-" then some none else (parseRefTok j).map some
+    let idx ← idx.toNat?
+    let cnt ← cnt.toNat?
+    pure ⟨step, ⟨tokId i, n⟩, h, l, j, idx, cnt, ok⟩
+  | _ => none
+
+def parseKV (s : String) : Option (String × String) :=
+  match s.splitOn "=" with
+  | [a, b] => some (a, b)
+  | _ => none
+
+def idList (s : String) : List Id := if s == "-" then [] else (s.splitOn ",").map tokId
+
+open BstreamVerif.Consumer in
+def setQuery (q : Queries) (ws : List String) : Queries :=
+  match ws with
+  | ["impl", "q", "head", h, _] =>
+    if h == "-" then { q with head := none } else
+    match h.splitOn ":" with
+    | [i, n, _] => { q with head := some (tokId i, n.toNat?.getD 0) }
+    | _ => q
+  | ["impl", "q", "lowest", v] => { q with lowest := v.toNat? }
+  | ["impl", "q", "ids", v] => { q with ids := idList v }
+  | "impl" :: "q" :: "canon" :: rest =>
+    { q with canon := rest.filterMap (fun kv => (parseKV kv).bind (fun (k, v) => k.toNat?.map (fun n => (n, tokId v)))) }
+  | "impl" :: "q" :: "byhash" :: rest =>
+    { q with byhash := rest.filterMap (fun kv => (parseKV kv).map (fun (k, v) => (tokId k, v == "1"))) }
+  | "impl" :: "q" :: "at" :: rest =>
+    { q with at_ := rest.filterMap (fun kv => (parseKV kv).bind (fun (k, v) => k.toNat?.map (fun n => (n, idList v)))) }
+  | _ => q
+
+open BstreamVerif.Consumer in
+/-- group the implementation's lines by fed block -/
+def parseImpl (body : List (List String)) : List OpObs :=
+  let flush (cur : Option OpObs) (acc : List OpObs) : List OpObs :=
+    match cur with | some o => o :: acc | none => acc
+  let (cur, acc) := body.foldl (fun (st : Option OpObs × List OpObs) ws =>
+    let (cur, acc) := st
+    match ws with
+    | "op" :: "blk" :: _ =>
+      (match parseBlkOp ws with
+       | some (b, f) => (some { blk := b, failAt := f, evs := [], ret := "?", q := none }, flush cur acc)
+       | none => (none, flush cur acc))
+    | "impl" :: "ev" :: _ =>
+      (match cur, parseObs ws with
+       | some o, some e => (some { o with evs := o.evs ++ [e] }, acc)
+       | some o, none => (some { o with ret := "unparsable-event" }, acc)
+       | none, _ => (cur, acc))
+    | ["impl", "ret", r] => (cur.map (fun o => { o with ret := r }), acc)
+    | "impl" :: "q" :: name :: rest =>
+      (cur.map (fun o =>
+        let q0 : Queries := o.q.getD { head := none, lowest := some 0, ids := [], canon := [], byhash := [], at_ := [] }
+        let q1 := if rest == ["panic"] && name == "lowest" then { q0 with lowest := none } else setQuery q0 ws
+        { o with q := some q1 }), acc)
+    | _ => (cur, acc)) (none, [])
+  (flush cur acc).reverse
+
+def slug (s : String) : String :=
+  let ws := (s.splitOn " ").take 3
+  "-".intercalate (ws.map (fun w => String.ofList (w.toList.filter Char.isAlpha))) |>.toLower
+
 def handle (hdr : List String) (body : List (List String)) : List String :=
   match parseCfg hdr with
   | none => ["model bad-case"]
-  | some cfg => runCase cfg (hdr.getLast? != some "noq") body
+  | some cfg =>
+    let model0 := runCase cfg (hdr.getLast? != some "noq") body
+    -- outside C03's quantifier (malformed LIB declarations) retention independence is not claimed: echo
+    let inC03 := (BstreamVerif.Consumer.appliesTo cfg (parseImpl body)).contains "C03"
+    let implTwins := (body.filter (fun l => l.take 2 == ["impl", "twin"])).map (fun l => "model " ++ unwords (l.drop 1))
+    let model := if inC03 then model0 else
+      (model0.foldl (fun (acc : List String × List String) l =>
+        if l == "model twin same" then
+          (match acc.2 with | t :: ts => (t :: acc.1, ts) | [] => (l :: acc.1, []))
+        else (l :: acc.1, acc.2)) ([], implTwins)).1.reverse
+    let fails := BstreamVerif.Consumer.monitor cfg (parseImpl body)
+    let twinFail := if body.any (· == ["impl", "twin", "DIFF"]) && (BstreamVerif.Consumer.appliesTo cfg (parseImpl body)).contains "C03"
+      then ["monitor C03 FAIL c03-output-depends-on-retention-or-refeeds :: the implementation's trace changed under another kept-final-blocks value or with re-fed blocks inserted"] else []
+    model ++ fails.map (fun (p, why) => s!"monitor {p} FAIL {p.toLower}-{slug why} :: {why}") ++ twinFail ++
+      ["note applies " ++ ",".intercalate (BstreamVerif.Consumer.appliesTo cfg (parseImpl body))]
 
 end BstreamVerif.Drv.ForkableDrv
